@@ -260,7 +260,7 @@ class Gen:
         kinds = ['assign'] * 4 + ['print'] * 3 + ['aug'] * 2 + ['unpack', 'substore', 'if', 'if', 'for', 'for', 'while',
                  'def', 'def', 'class', 'walrus', 'import', 'dictops', 'exprstmt', 'multi', 'swap', 'nestunpack',
                  'attr', 'lambdadef', 'scopechain', 'bareann', 'factory', 'recursion', 'kwcall',
-                 'docstring', 'mapfilter', 'forstar', 'augslice', 'methodstate', 'nestedclass', 'lazygen', 'leave2']
+                 'docstring', 'mapfilter', 'forstar', 'augslice', 'methodstate', 'nestedclass', 'lazygen', 'leave2', 'private']
         if self.weights:
             kinds += [k for k, w in self.weights.items() for _ in range(w)]
         if sc.loop_depth:
@@ -647,6 +647,39 @@ class Gen:
         self.emit(ind + 2, f"return '{K}(%r)' % (self.items,)")
         self.emit(ind, f'{o} = {K}({self.int_expr(sc)}).push(1, {self.int_expr(sc)}).push(2, -1, 3)')
         self.emit(ind, f"print({o}, {o}.total(), {K}.count, getattr({o}, 'last', None))")
+
+    def s_private(self, sc, ind, depth):
+        """Private (name-mangled) class members: attributes, methods, parameters, comprehension variables, aliases."""
+        if sc.kind == 'class':
+            return self.s_assign(sc, ind, depth)
+        self.features.add('private-names')
+        r = self.r
+        K, o = self.fresh(r.choice(['Pv', '_Pv', '__Pv'])), self.fresh('po')
+        a, m, p = r.choice(['__a', '__val', '___x', '__a_']), r.choice(['__m', '__do']), r.choice(['__p', '__arg'])
+        self.emit(ind, f'class {K}:')
+        self.emit(ind + 1, f'{a} = {self.int_expr(sc, 1)}')
+        self.emit(ind + 1, '__dunder__ = 1')
+        self.emit(ind + 1, f'def __init__(self, {p}=2):')
+        self.emit(ind + 2, f'self.{a}i = {p} + self.{a}')
+        self.emit(ind + 1, f'def {m}(self, {p}, *, __k=1):')
+        self.emit(ind + 2, f'return [self.{a} + {p} + __k + __q for __q in range(2)]')
+        self.emit(ind + 1, f'lam = lambda self, {p}=3: (self.{a}i, {p})')
+        self.emit(ind + 1, 'def run(self):')
+        self.emit(ind + 2, 'out = []')
+        self.emit(ind + 2, 'for __i in range(2):')
+        self.emit(ind + 3, f'out.append(self.{m}(__i))')
+        self.emit(ind + 2, f'self.{a}i += 1')
+        self.emit(ind + 2, 'def inner():')
+        self.emit(ind + 3, f'return self.{a}i, self.__dunder__')
+        self.emit(ind + 2, 'return out, inner(), self.lam()')
+        if r.random() < 0.5:
+            self.emit(ind + 1, f'class __In:')
+            self.emit(ind + 2, f'{a} = 7')
+            self.emit(ind + 2, 'def get(self):')
+            self.emit(ind + 3, f'return self.{a}')
+            self.emit(ind + 1, f'inner_val = __In().get()')
+        self.emit(ind, f'{o} = {K}({self.int_expr(sc)})')
+        self.emit(ind, f"print({o}.run(), sorted(k for k in vars({K}) if not k.endswith('__')), sorted(vars({o})))")
 
     def s_nestedclass(self, sc, ind, depth):
         if sc.kind == 'class':
